@@ -14,6 +14,7 @@ fn main() {
     match args.cmd() {
         "replay-window" => window::replay(&args),
         "record-window" => window::record(&args),
+        "replay-kernel-safety" => window::kernel_safety(&args),
         "replay-roll1" => roll1::replay(&args),
         "replay-roll2" => roll2::replay(&args),
         "record-roll1" => rec::record_roll1(&args),
